@@ -142,11 +142,57 @@ def annotate_assigns(tree) -> int:
     return count
 
 
+def hoist_call_args(tree) -> int:
+    """`f(g(x), y)` -> `_h1 = g(x); f(_h1, y)` for the first call-valued positional argument of a call that is the whole value of an
+    expression statement / assignment / return inside a function body (evaluation order is preserved: only the FIRST argument is hoisted,
+    and only when the callee expression is a plain name/attribute chain, which has no side effects)."""
+    count = 0
+
+    def simple(e):
+        while isinstance(e, ast.Attribute):
+            e = e.value
+        return isinstance(e, ast.Name)
+
+    for fn in ast.walk(tree):
+        if not isinstance(fn, FuncNode):
+            continue
+        k = 0
+        for n in ast.walk(fn):
+            for field in ("body", "orelse", "finalbody"):
+                blk = getattr(n, field, None)
+                if not isinstance(blk, list):
+                    continue
+                new = []
+                for st in blk:
+                    call = None
+                    if isinstance(st, ast.Expr) and isinstance(st.value, ast.Call):
+                        call = st.value
+                    elif isinstance(st, (ast.Assign, ast.Return)) and isinstance(st.value, ast.Call):
+                        call = st.value
+                    if call is not None and simple(call.func) and call.args and isinstance(call.args[0], ast.Call) and not getattr(st, "_h", False):
+                        k += 1
+                        name = f"_h{k}"
+                        a = ast.Assign(targets=[ast.Name(id=name, ctx=ast.Store())], value=call.args[0])
+                        ast.copy_location(a, st)
+                        call.args[0] = ast.Name(id=name, ctx=ast.Load())
+                        st._h = True
+                        new.append(a)
+                        count += 1
+                    new.append(st)
+                blk[:] = new
+    ast.fix_missing_locations(tree)
+    return count
+
+
 def all_three(tree) -> int:
     return invert_branches(tree) + rename_locals(tree) + insert_noops(tree)
 
 
-TRANSFORMS = {"rename": rename_locals, "invert": invert_branches, "noops": insert_noops, "all": all_three, "annotate": annotate_assigns}
+def all_five(tree) -> int:
+    return hoist_call_args(tree) + annotate_assigns(tree) + invert_branches(tree) + rename_locals(tree) + insert_noops(tree)
+
+
+TRANSFORMS = {"rename": rename_locals, "invert": invert_branches, "noops": insert_noops, "all": all_three, "annotate": annotate_assigns, "hoist": hoist_call_args, "all5": all_five}
 
 
 def refactored_copy(root: str = "/repo", transform=rename_locals) -> tuple[str, int]:
